@@ -256,7 +256,7 @@ func c12Spaces(c *fw.Ctx) {
 			}
 		})
 
-	c.Space("stream/eof", "one framed message of size s ∈ {12,13,255,256,257,513,4096} with the stream ending (EOF, and a timeout error) at every offset before the end: an error and no message; at the end: the message; non-trivial: EOF inside the frame", true,
+	c.Space("stream/eof", "one framed message of size s ∈ {12,13,255,256,257,513,4096} with the stream ending (EOF, and a timeout error) at every offset before the end, read through Conn.ReadMsg, ReadMsgHeader, Conn.Read and Transfer.ReadMsg: an error and no message; at the end: the message; non-trivial: EOF inside the frame", true,
 		func(emit func(func(*fw.R))) {
 			for _, s := range []int{12, 13, 255, 256, 257, 513, 4096} {
 				for _, e := range []error{nil, timeoutErr{}} {
@@ -266,11 +266,18 @@ func c12Spaces(c *fw.Ctx) {
 						a := c12Body(s, 7)
 						fr := c12Frame(a)
 						for n := 0; n < len(fr); n++ {
-							for how := 0; how < 3; how++ {
+							for how := 0; how < 4; how++ {
 								co := &dns.Conn{Conn: &segConn{data: fr[:n], eofErr: e}}
 								var got []byte
 								var err error
-								if how == 0 {
+								if how == 3 {
+									// the read path of zone transfers
+									var m *dns.Msg
+									m, err = (&dns.Transfer{Conn: co}).ReadMsg()
+									if m != nil && err == nil {
+										got = []byte{1}
+									}
+								} else if how == 0 {
 									var m *dns.Msg
 									m, err = co.ReadMsg()
 									if m != nil && err == nil {
